@@ -34,10 +34,27 @@ def _call(e):
     """e: version/locktime (4 LE bytes), ins [{prev, seq, ss}], outs [bytes], idx, amount (8 LE bytes), sc, flag."""
     import bits.bips.bip143 as b143
 
-    txins = [bytes(i["prev"]) + _cs(len(i.get("ss", []))) + bytes(i.get("ss", [])) + bytes(i["seq"]) for i in e["ins"]]
-    txouts = [bytes(o) for o in e["outs"]]
+    if e.get("libser"):
+        # the arguments as a user of the library obtains them: serialised by the library's own txin / txout /
+        # compact_size_uint (so that helper defects reach the signature message)
+        import bits
+        import bits.tx
+        try:
+            txins = [bits.tx.txin(bytes(i["prev"]), bytes(i.get("ss", [])), sequence=bytes(i["seq"])) for i in e["ins"]]
+            txouts = []
+            for o in e["outs"]:
+                o = bytes(o)
+                k = 1 if o[8] < 253 else 3 if o[8] == 253 else 5
+                txouts.append(bits.tx.txout(int.from_bytes(o[:8], "little"), o[8 + k:]))
+            scode = bits.compact_size_uint(len(e["sc"])) + bytes(e["sc"])
+        except Exception as ex:  # noqa
+            return {"ok": False, "r": [], "exc": "serialiser:" + type(ex).__name__}
+    else:
+        txins = [bytes(i["prev"]) + _cs(len(i.get("ss", []))) + bytes(i.get("ss", [])) + bytes(i["seq"]) for i in e["ins"]]
+        txouts = [bytes(o) for o in e["outs"]]
+        scode = _cs(len(e["sc"])) + bytes(e["sc"])
     res = run_call(b143.witness_message, txins, e["idx"], int.from_bytes(bytes(e["amount"]), "little"),
-                   _cs(len(e["sc"])) + bytes(e["sc"]), txouts,
+                   scode, txouts,
                    version=int.from_bytes(bytes(e["version"]), "little"),
                    locktime=int.from_bytes(bytes(e["locktime"]), "little"), sighash_flag=e["flag"])
     if "ok" in res and isinstance(res["ok"], (bytes, bytearray)):
@@ -241,6 +258,23 @@ def _gen_c(ctx):
         keep = [e for e in evs if e["idx"] >= len(e["outs"]) and e["flag"] & 0x1F == 3][:60]
         rest = [e for e in evs if e not in keep]
         evs = keep + rest[:400 - len(keep)]
+    for i, e in enumerate(evs):
+        e["libser"] = (i % 2 == 0)
+    # boundary lengths through the library's serialisers: scriptCode / scriptPubKey of exactly 252, 253, 254, 65535, 65536 bytes
+    base = evs[0]
+    for L in (252, 253, 254, 65535, 65536):
+        spk = rb(L)
+        evs.append({**base, "sc": rb(L), "idx": 0, "flag": 1, "libser": True})
+        evs.append({**base, "outs": [J((1000).to_bytes(8, "little") + _cs(L) + bytes(spk))], "idx": 0, "flag": 1, "libser": True})
+    # histories in one process: a transaction, then replacements spending the SAME outpoints with other sequences / other
+    # outputs (fee bump, RBF) - the message must not depend on what was computed before
+    for b in [e for e in evs if len(e["ins"]) >= 2][: (6 if quick else 200)]:
+        for flag in (0x01, 0x81, 0x03):
+            a = {**b, "flag": flag, "idx": 0}
+            evs.append(a)
+            evs.append({**a, "ins": [{**x, "seq": J(((int.from_bytes(bytes(x["seq"]), "little") + 1) % 2 ** 32).to_bytes(4, "little"))} for x in a["ins"]]})
+            o2 = bytes(a["outs"][0])
+            evs.append({**a, "outs": [J(((int.from_bytes(o2[:8], "little") + 1) % 2 ** 63).to_bytes(8, "little") + o2[8:])] + a["outs"][1:]})
     return evs
 
 
@@ -281,6 +315,32 @@ def _run_c(ctx, evs, selftest=True):
         ctx.sample({"stage": "C", "event": _cls(e), "preimage_hex": bytes(gots[len(evs) // 2]["r"]).hex()[:120] + "..."})
 
 
+def _stage_sendtx(ctx):
+    """The message as send_tx uses it: multi-input segwit sends whose inputs have different amounts and positions; every
+    input's signature must be valid for the BIP143 digest of ITS outpoint, amount and sequence (judged by Trace_Send)."""
+    from . import c16
+
+    rnd = random.Random(ctx.seed * 131 + 1111)
+    cases = []
+    for i, kind in enumerate(["p2wpkh", "p2sh-p2wpkh", "p2wsh"] if ctx.tier == "quick" else ["p2wpkh", "p2sh-p2wpkh", "p2wsh", "p2sh-p2wsh"] * 8):
+        cases.append(c16.make_case(rnd, kind=kind, rkind="p2wpkh", signed=True, flag=FLAGS[i % 6], n_utxo=rnd.randint(2, 3), num=1, den=1,
+                                   fee=1000, version=2, lock=rnd.choice([0, 101]), change=None, m=1, n=2,
+                                   amounts=[rnd.randrange(10 ** 5, 10 ** 9) for _ in range(3)][: 3], vouts=None))
+    evs = []
+    for c in cases:
+        c["utxos"] = c["utxos"][: len(c["utxos"])]
+        ev, cls = c16.run_case(c)
+        ev["id"] = len(evs)
+        ev["_cls"] = cls
+        evs.append(ev)
+    verdicts, stats = vlib.validate_events("Trace_Send", [{k: v for k, v in e.items() if k != "_cls"} for e in evs], native=True,
+                                           chunk=1, jobs=16, tag="c11s", timeout=3000)
+    for e in evs:
+        if verdicts[e["id"]] != "ok":
+            ctx.violation("sendtx-" + verdicts[e["id"]], dict(stage="C", **e["_cls"]))
+    ctx.stage_c("Trace_Send (send_tx multi-input segwit: the message per input)", len(evs), stats)
+
+
 def run(ctx):
     ctx.rule = ("stage A: every row of the decision table; stage B: every TLC-emitted row (real SHA-256); stage C: generated "
                 "calls; non-trivial = every call (distinct by flag, index, n_in, n_out, scriptCode length, amount); calls with "
@@ -303,6 +363,7 @@ def run(ctx):
     _stage_b(ctx, rows)
     _run_c(ctx, _gen_c(ctx))
     ctx.cov["stage_c"][-1]["bip143_examples_selftest"] = nvec
+    _stage_sendtx(ctx)
 
 
 def replay(ctx, path):
